@@ -411,6 +411,28 @@ func c10Norms(c *Ctx) {
 		return isK && k == 1 && isField(sh.Y, "log2Gamma1")
 	}
 	isGamma2 := func(v ssa.Value) bool { return isField(v, "gamma2") }
+	// value-based recognition of a bound: folded for the three parameter sets, the
+	// bound equals the named quantity in each of them — whatever locals, helpers or
+	// hoisting the code uses
+	const q = 8380417
+	type ps struct{ tau, lg1, inv2, eta, omega int64 }
+	sets := []ps{{39, 17, 88, 2, 80}, {49, 19, 32, 4, 55}, {60, 19, 32, 2, 75}}
+	boundIs := func(v ssa.Value, want func(s ps) int64) bool {
+		for _, s := range sets {
+			got, ok := foldInt(v, map[string]int64{"tau": s.tau, "log2Gamma1": s.lg1, "gamma2": (q - 1) / s.inv2, "eta": s.eta, "omega": s.omega}, 0)
+			if !ok || got != want(s) {
+				return false
+			}
+		}
+		return true
+	}
+	gamma1MinusBeta := func(s ps) int64 { return int64(1)<<uint(s.lg1) - s.tau*s.eta }
+	gamma2MinusBeta := func(s ps) int64 { return (q-1)/s.inv2 - s.tau*s.eta }
+	gamma2Only := func(s ps) int64 { return (q - 1) / s.inv2 }
+	omegaOnly := func(s ps) int64 { return s.omega }
+	_ = minusBeta
+	_ = isGamma1
+	_ = isGamma2
 	// verify
 	var vf, sf *ssa.Function
 	for _, m := range methodsOf(p, rel, "PublicKey") {
@@ -430,7 +452,7 @@ func c10Norms(c *Ctx) {
 	for _, ret := range guard.SuccessReturns(vf) {
 		zOK, cOK := false, false
 		for _, fct := range guard.BlockFacts(ret.Block()) {
-			if op, bound, ok := normCmp(fct, "infinityNorm"); ok && op == token.LSS && minusBeta(bound, isGamma1) {
+			if op, bound, ok := normCmp(fct, "infinityNorm"); ok && op == token.LSS && boundIs(bound, gamma1MinusBeta) {
 				zOK = true
 			}
 			if w, ok := newAcceptCtx(c).authFact(fct); ok && (strings.Contains(w, "Compare") || strings.Contains(w, "Equal")) {
@@ -445,15 +467,15 @@ func c10Norms(c *Ctx) {
 		for _, fct := range guard.BlockFacts(ret.Block()) {
 			if op, bound, ok := normCmp(fct, "infinityNorm"); ok && op == token.LSS {
 				switch {
-				case minusBeta(bound, isGamma1):
+				case boundIs(bound, gamma1MinusBeta):
 					z = true
-				case minusBeta(bound, isGamma2):
+				case boundIs(bound, gamma2MinusBeta):
 					r0 = true
-				case isGamma2(bound):
+				case boundIs(bound, gamma2Only):
 					ct0 = true
 				}
 			}
-			if op, bound, ok := normCmp(fct, "numOnes"); ok && op == token.LEQ && isField(bound, "omega") {
+			if op, bound, ok := normCmp(fct, "numOnes"); ok && op == token.LEQ && boundIs(bound, omegaOnly) {
 				h = true
 			}
 		}
